@@ -134,7 +134,7 @@ def gen_history(rng, hid, maxlen=6):
         kinds = ["append"] * 3 + ["remove"] * 2 + ["writergs"] * 3 + (["overwrite"] * 4 if pcols else [])
         if one_handle:
             # every operation after the first write goes through ONE long-lived ParquetFile (write_row_groups / remove_row_groups are
-            # its methods; write(append=...) would open another handle): Dataset/Handle.v, theorem C09_handle_refines
+            # its methods; write(append=...) would open another handle): Dataset/DsHandle.v, theorem C09_handle_refines
             kinds = ["remove"] * 2 + ["writergs"] * 3
         kind = rng.choice(kinds)
         if kind == "remove":
@@ -480,7 +480,7 @@ def run(ctx):
     bad = C.hygiene()
     ctx.obligation("hygiene: no Admitted/Axiom/Parameter/... in coq/", not bad, "; ".join(bad))
     from harness import dsfs
-    dsfs.paths_translator(ctx)
+    dsfs.partnames_translator(ctx)
     if not ctx.quick():
         from harness import dsedit2_lib as _L
         _L.coqchk(ctx, ["Pq.Proofs.EditHistory"])
